@@ -183,6 +183,32 @@ type plainItem struct {
 	tags []string
 }
 
+type namedS string
+
+func (n namedS) String() string { return "String() of " + string(n) }
+
+type namedEmpty string
+
+func (n namedEmpty) String() string { return "" }
+
+type namedG string
+
+func (n namedG) GoString() string { return "GoString() of " + string(n) }
+
+type namedE string
+
+func (n namedE) Error() string { return "Error() of " + string(n) }
+
+type namedPlain string
+
+type namedInt int
+
+func (n namedInt) String() string { return "seven" }
+
+type namedRune rune
+
+func (n namedRune) String() string { return "rune-" + string(rune(n)) }
+
 type nilSafeS struct{ v string }
 
 func (p *nilSafeS) String() string {
@@ -379,6 +405,14 @@ func runC01(x *X) {
 		{"(*T)(nil), T has a nil-safe GoString only", func() interface{} { return (*nilSafeG)(nil) }, sp("nil-safe GoString"), []string{"typed_nil_pointer"}},
 		{"(*T)(nil), T has a nil-safe Error only", func() interface{} { return (*nilSafeE)(nil) }, sp("nil-safe Error"), []string{"typed_nil_pointer"}},
 		{"(*T)(nil), T has no methods", func() interface{} { return (*noMethods)(nil) }, pv, []string{"typed_nil_pointer"}},
+		// named string types with methods: the ladder looks at the methods, not at the underlying kind
+		{"named string with String()", func() interface{} { return namedS("raw-value") }, sp("String() of raw-value"), []string{"named_string_type"}},
+		{"named string with String() returning \"\"", func() interface{} { return namedEmpty("raw-value") }, sp(""), []string{"named_string_type"}},
+		{"named string with GoString() only", func() interface{} { return namedG("raw-value") }, sp("GoString() of raw-value"), []string{"named_string_type"}},
+		{"named string with Error() only", func() interface{} { return namedE("raw-value") }, sp("Error() of raw-value"), []string{"named_string_type"}},
+		{"named string without methods", func() interface{} { return namedPlain("raw-value") }, sp("raw-value"), []string{"named_string_type"}},
+		{"named int with String()", func() interface{} { return namedInt(7) }, sp("seven"), nil},
+		{"named rune type with String()", func() interface{} { return namedRune('x') }, sp("rune-x"), nil},
 		{"nil map", func() interface{} { return map[string]int(nil) }, pv, nil},
 		{"nil slice", func() interface{} { return []int(nil) }, pv, nil},
 		{"nil func", func() interface{} { return (func())(nil) }, pv, nil},
